@@ -118,4 +118,15 @@ def checksOfChain (chain : List String) : Option (List Check) :=
 def WireEntry.toStatus (parseUrl : String → Url) (e : WireEntry) : StatusEntry :=
   { type := e.type, purpose := e.purpose, list := parseUrl e.list, idx := atoi e.index }
 
+/-- `statusListURL`: `url.Parse(baseURL).JoinPath("statuslist", did, strconv.Itoa(page)).String()` for a base URL without
+    trailing slash / query / fragment and a DID whose characters need no path escaping: plain concatenation -/
+def renderSlChars (base issuer : String) (page : Nat) : List Char :=
+  base.toList ++ "/statuslist/".toList ++ issuer.toList ++ '/' :: natDigits page
+
+def renderSl (base issuer : String) (page : Nat) : String := String.ofList (renderSlChars base issuer page)
+
+def renderUrl : Url → String
+  | .sl base issuer page => renderSl base issuer page
+  | .raw s => s
+
 end Nuts.C11.Wire
